@@ -482,7 +482,7 @@ class PubSubRun:
         read_seqs = [fr.seq for fr in net.reads]
         acks = model.acks_by_conn
         lost = defaultdict(list)   # conn -> seqs of failed / void writes
-        for s, c, _k, _e in net.wfails:
+        for s, c, _k, _e, _mt, _tag in net.wfails:
             lost[c].append(s)
         for s, c in net.voids:
             lost[c].append(s)
@@ -534,7 +534,7 @@ class PubSubRun:
                 anyloss = False
                 for u in unit:
                     l2, h2 = window(u.fr)
-                    n, bad = count(u.conn, l2, h2, dest=first.mod_id if first.decision == MUST_ACCEPT else None)
+                    n, bad = count(u.conn, l2, h2, dest=first.mod_id if (first.decision == MUST_ACCEPT and first.mod_id not in (None, -1)) else None)
                     total += n
                     wrong = wrong if bad is None else bad
                     anyloss = anyloss or lossy(u.conn, l2, h2)
@@ -561,7 +561,7 @@ class PubSubRun:
             # only senders that completed a handshake are asserted on
             if m.connect_seq is None or m.connect_seq > c.fr.seq:
                 continue
-            n, bad = count(c.conn, lo, hi, dest=c.mod_id if c.ack_expected else None)
+            n, bad = count(c.conn, lo, hi, dest=c.mod_id if (c.ack_expected and c.mod_id not in (None, -1)) else None)
             if c.ack_expected:
                 if m.is_logger:
                     ok = n in (1, 2)
@@ -587,6 +587,16 @@ class PubSubRun:
                 res.probes["unacked_frame_checked"] += 1
 
     def _logger_copies(self, res, first, unit, window, count, lossy, model):
+        # if the sender's own connection failed while its request was being handled there may be
+        # no acknowledgement at all (nothing left to acknowledge), hence no copies either
+        sender_lost = False
+        sm = model.conns.get(first.conn)
+        for u in unit:
+            l2, h2 = window(u.fr)
+            if lossy(first.conn, l2, h2) or (sm is not None and sm.removed_seq is not None
+                                             and l2 < sm.removed_seq < h2 and sm.removed_how == "wfail"):
+                sender_lost = True
+        known_id = first.mod_id if first.mod_id not in (None, -1) else None
         for lg in first.loggers:
             if lg == first.conn:
                 continue
@@ -596,14 +606,14 @@ class PubSubRun:
             gone = False
             for u in unit:
                 l2, h2 = window(u.fr)
-                n, bad = count(lg, l2, h2, dest=first.mod_id)
+                n, bad = count(lg, l2, h2, dest=known_id)
                 total += n
                 anyloss = anyloss or lossy(lg, l2, h2)
                 if lm is not None and lm.removed_seq is not None and lm.removed_seq < h2:
                     gone = True
                 if bad is not None:
                     res.add("C19", "ack_copy_address", f"logger conn {lg} got ACK copy addressed to {bad}")
-            if total != 1 and not ((anyloss or gone) and total < 1):
+            if total != 1 and not ((anyloss or gone or sender_lost) and total < 1):
                 res.add("C19", "logger_copy", f"logger conn {lg} got {total} copies of the ACK for conn "
                                               f"{first.conn} frame type={first.fr.hdr.msg_type}")
             else:
